@@ -89,9 +89,14 @@ const v2Total = 139968000
 
 func TestC05(t *testing.T) {
 	h := start(t, "C05", "complete enumeration of all 139,968,000 v2.0 metric assignments (each visited once, objects built with Set); a case is non-trivial when at least one environmental metric is not ND; distinct by construction")
+	if h.replaying() && h.replay.Kind == "score-history" {
+		doReplay(h, "score-history", checkScoreHist)
+		return
+	}
 	if doReplay(h, "v2-assignment", checkV2Scores) {
 		return
 	}
+	runScoreHists(h, 0, env.Scale(6000, 60000))
 	h.R.Assume("oracle: guide section 3.2 equations in math/big.Rat with tie sets (spec/score2.go)")
 	h.R.Assume("Impact/Exploitability compared with absolute tolerance 1e-9")
 	mv := spec.V2.Metrics
